@@ -9,6 +9,11 @@ package main
 // upload. The reference model decides from the request alone whether it must be accepted; the
 // oracle compares status, reply and — through the store snapshot and the directory listing — the
 // effects.
+//
+// Per case the configured media handler is either fs or the harness's redirecting handler
+// ("vredir", c16_env_test.go), which answers downloads with 307 + Location the way the s3 handler
+// does: a request that must be refused is never answered with a redirect or any Location; an
+// authorised GET / HEAD of an upload gets the 307 with the location of that upload.
 
 import (
 	"bytes"
@@ -49,6 +54,7 @@ type c16GateCase struct {
 	MaxSize  int          `json:"max_size"` // 0 = no limit
 	ServeURL int          `json:"serve_url"`
 	Gc       bool         `json:"gc"`
+	Handler  int          `json:"handler,omitempty"` // 0: fs; 1: "vredir", which answers downloads with 307 + Location (as the s3 handler does)
 	Reqs     []c16GateReq `json:"reqs"`
 }
 
@@ -90,6 +96,9 @@ func c16GateGen(rt *rapid.T) c16GateCase {
 	}
 	c.ServeURL = rapid.IntRange(0, len(c16ServeURLs)-1).Draw(rt, "serve_url")
 	c.Gc = rapid.Bool().Draw(rt, "gc")
+	if rapid.IntRange(0, 2).Draw(rt, "handler") == 0 {
+		c.Handler = 1
+	}
 	n := rapid.IntRange(2, 7).Draw(rt, "n_reqs")
 	for i := 0; i < n; i++ {
 		var r c16GateReq
@@ -213,6 +222,15 @@ func c16GateExec(c c16GateCase, tol func(*kit.Viol) bool) (o kit.Outcome) {
 	}
 	e := c16Open(c16ServeURLs[((c.ServeURL%len(c16ServeURLs))+len(c16ServeURLs))%len(c16ServeURLs)], limit, gcp)
 	defer e.close()
+	redirect := c.Handler%2 != 0
+	hname := "fs"
+	if redirect {
+		hname = c16RedirName
+		e.useRedirect()
+		cls["handler:redirecting"] = true
+	} else {
+		cls["handler:fs"] = true
+	}
 
 	var stored []c16Stored
 	accepted, refused := 0, 0
@@ -354,7 +372,12 @@ func c16GateExec(c c16GateCase, tol func(*kit.Viol) bool) (o kit.Outcome) {
 					cls["carve-out:newacc-upload-without-credentials"] = true
 				}
 			}
-			if r.Method == "HEAD" {
+			if r.Method == "HEAD" && !r.Up && redirect {
+				// the redirecting handler looks the file up for HEAD too
+				if target == nil {
+					plan.refuse("unknown-file", 404)
+				}
+			} else if r.Method == "HEAD" {
 				plan.headOnly = true
 			} else if r.Up {
 				if limit > 0 && int64(bodyLen) > limit {
@@ -384,8 +407,8 @@ func c16GateExec(c c16GateCase, tol func(*kit.Viol) bool) (o kit.Outcome) {
 		rowsAfter, dirAfter := c16FileRows(), e.dirList()
 		addedRows, removedRows := c16Diff(rowsBefore, rowsAfter)
 		addedFiles, removedFiles := c16Diff(dirBefore, dirAfter)
-		what := fmt.Sprintf("request %d (%s %s, key kind %d at %d, cred kind %d at %d, body %d bytes, limit %d)", i, r.Method, req.RequestURI,
-			r.Key.Kind, r.Key.Place%4, r.Cred.kind(), r.Cred.place(), bodyLen, limit)
+		what := fmt.Sprintf("request %d (%s %s, key kind %d at %d, cred kind %d at %d, body %d bytes, limit %d, media handler %s)", i, r.Method, req.RequestURI,
+			r.Key.Kind, r.Key.Place%4, r.Cred.kind(), r.Cred.place(), bodyLen, limit, hname)
 		if pan != nil {
 			o.Viol = kit.V("gate:panic", "%s: handler panicked: %v", what, pan)
 			return o
@@ -406,6 +429,10 @@ func c16GateExec(c c16GateCase, tol func(*kit.Viol) bool) (o kit.Outcome) {
 				if len(s.data) >= 8 && bytes.Contains(rep.body, s.data) {
 					return kit.V("gate:bytes-in-refusal", "%s: answered %d yet the reply carries the bytes of %s", what, rep.code, s.url)
 				}
+			}
+			// where the bytes can be fetched from is as good as the bytes
+			if loc := rep.header.Get("Location"); loc != "" || bytes.Contains(rep.body, []byte(c16RedirBase)) {
+				return kit.V("gate:location-in-refusal", "%s: answered %d yet the reply names a location (Location: %q, body %s)", what, rep.code, loc, c16Short(rep.body))
 			}
 			return nil
 		}
@@ -432,8 +459,12 @@ func c16GateExec(c c16GateCase, tol func(*kit.Viol) bool) (o kit.Outcome) {
 		isRefusal := rep.code >= 400
 		if mustRefuse || (plan.gray && isRefusal && rep.code == 413) {
 			if !isRefusal {
-				o.Viol = kit.V("gate:accepted:"+plan.reasons[0], "%s: must be refused (%s) but was answered %d %s",
-					what, strings.Join(plan.reasons, ","), rep.code, c16Short(rep.body))
+				sig := "gate:accepted:" + plan.reasons[0]
+				if loc := rep.header.Get("Location"); loc != "" || (rep.code >= 300 && rep.code < 400) {
+					sig = "gate:redirected:" + plan.reasons[0]
+				}
+				o.Viol = kit.V(sig, "%s: must be refused (%s) but was answered %d (Location %q) %s",
+					what, strings.Join(plan.reasons, ","), rep.code, rep.header.Get("Location"), c16Short(rep.body))
 				if v := noEffect("wrongly-accepted-request"); v != nil {
 					o.Viol.Msg += "; " + v.Msg
 				}
@@ -497,6 +528,33 @@ func c16GateExec(c c16GateCase, tol func(*kit.Viol) bool) (o kit.Outcome) {
 			}
 			o.Viol = v
 			return o
+		}
+		if redirect && !r.Up {
+			// valid key, valid credentials, GET or HEAD of an existing upload: the handler's redirect is passed on
+			want := c16RedirLocation(target.id)
+			if rep.code != 307 || rep.header.Get("Location") != want {
+				o.Viol = kit.V("gate:redirect-reply", "%s: authorised download through the redirecting handler answered %d Location %q %s, expected 307 Location %q",
+					what, rep.code, rep.header.Get("Location"), c16Short(rep.body), want)
+				return o
+			}
+			if r.Method == "HEAD" && len(rep.body) != 0 {
+				o.Viol = kit.V("gate:head-reply", "%s: HEAD answered %d with %d body bytes", what, rep.code, len(rep.body))
+				return o
+			}
+			if o.Viol = noEffect("redirected-download"); o.Viol != nil {
+				return o
+			}
+			for _, s := range stored {
+				if len(s.data) >= 8 && bytes.Contains(rep.body, s.data) {
+					o.Viol = kit.V("gate:bytes-in-redirect", "%s: answered %d yet the reply carries the bytes of %s", what, rep.code, s.url)
+					return o
+				}
+			}
+			accepted++
+			cls["accepted:download-redirected"] = true
+			cls["redirected:"+r.Method] = true
+			cls[fmt.Sprintf("cred-place:%d", r.Cred.place())] = true
+			continue
 		}
 		if plan.headOnly {
 			cls["head"] = true
